@@ -128,6 +128,7 @@ type inFlightState struct {
 // f to mutate that state, and closes the connection if it is idle and either
 // is closing or has a read or write error.
 func (c *Connection) updateInFlight(f func(*inFlightState)) {
+	verifYield(c, "update")
 	c.stateMu.Lock()
 	defer c.stateMu.Unlock()
 
@@ -520,10 +521,12 @@ func (c *Connection) readIncoming(ctx context.Context, reader Reader, preempter 
 			msg Message
 			n   int64
 		)
+		verifYield(c, "read:loop")
 		msg, n, err = reader.Read(ctx)
 		if err != nil {
 			break
 		}
+		verifYield(c, "read:msg")
 
 		switch msg := msg.(type) {
 		case *Request:
@@ -551,6 +554,7 @@ func (c *Connection) readIncoming(ctx context.Context, reader Reader, preempter 
 		}
 	}
 
+	verifYield(c, "read:exit")
 	c.updateInFlight(func(s *inFlightState) {
 		if Verbose {
 			log.Println("==> readIncoming: updateInFlight s.reading - false")
@@ -767,7 +771,9 @@ func (c *Connection) processResult(from any, req *incomingRequest, result any, e
 func (c *Connection) write(ctx context.Context, msg Message) error {
 	writer := <-c.writer
 	defer func() { c.writer <- writer }()
+	verifYield(c, "write:before")
 	_, err := writer.Write(ctx, msg)
+	verifYield(c, "write:after")
 
 	if err != nil && ctx.Err() == nil {
 		// The call to Write failed, and since ctx.Err() is nil we can't attribute
